@@ -92,7 +92,10 @@ HsWrite(id, payload, buflen, slackfail) ==
   /\ LET st == St(id)
          w  == WriteMessage(st, payload, buflen)
          ok == w.cause = "none" \/ (w.cause = "W_SLACK" /\ ~slackfail)
-         args == [payload |-> payload, buf |-> buflen]
+         \* rng: the index of the next draw of this endpoint's random source in the MODEL's numbering; the replay positions
+         \* the deterministic source there before the call, so that whether an earlier failed call consumed randomness
+         \* (an implementation detail) does not matter - only that THIS write draws its ephemeral (C06)
+         args == [payload |-> payload, buf |-> buflen, rng |-> st.rng]
      IN
      IF ok
      THEN /\ ep' = [ep EXCEPT ![id].st = w.okst]
@@ -104,7 +107,13 @@ HsWrite(id, payload, buflen, slackfail) ==
           /\ ep' = [ep EXCEPT ![id].st = st1]
           /\ aeadLog' = aeadLog \cup AeadOps(w.pfields)   \* a failed call has still encrypted what it produced
           /\ Log(Step("hs_write", id, args,
-                      [res |-> "err", cause |-> w.cause, kinds |-> KindsOf(w.cause),
+                      [res |-> "err", cause |-> w.cause,
+                       \* in phase, a message that cannot fit the buffer or the limit by its structure alone may be
+                       \* refused with Input before anything else is looked at
+                       kinds |-> KindsOf(w.cause) \cup
+                                 (IF st.turn /\ ~Finished(st)
+                                     /\ LET l == MsgStructLen(st, FLen(st, payload)) IN l > buflen \/ l > MAXMSG
+                                  THEN {"Input"} ELSE {}),
                        slack |-> w.cause = "W_SLACK", obs |-> HsObs(st1)]))
 
 HsRead(id, msg, outlen) ==
@@ -120,7 +129,11 @@ HsRead(id, msg, outlen) ==
      ELSE LET st1 == Rollback(st, r.st) IN
           /\ ep' = [ep EXCEPT ![id].st = st1]
           /\ Log(Step("hs_read", id, args,
-                      [res |-> "err", cause |-> r.cause, kinds |-> KindsOf(r.cause), obs |-> HsObs(st1),
+                      [res |-> "err", cause |-> r.cause,
+                       \* in phase, a message shorter than the fixed fields of this step may be refused with Input at once
+                       kinds |-> KindsOf(r.cause) \cup
+                                 (IF ~st.turn /\ ~Finished(st) /\ MsgLen(st, msg) < FixedStructLen(st) THEN {"Input"} ELSE {}),
+                       obs |-> HsObs(st1),
                        noleak |-> LeakSet(msg)]))
   /\ UNCHANGED aeadLog
 
